@@ -5,7 +5,9 @@
 //
 //	source value x delivery x target type (and variant) x read path
 //
-// and run(case) builds a one-setting configuration, reads the setting and
+// (forms_test.go adds: the Go type and packaging of the source, the typed
+// setters, lists of one element, element targets of lists / maps / structs /
+// interfaces, getters with index 0) and run(case) builds a one-setting configuration, reads the setting and
 // compares the outcome with exact arithmetic (math/big, oracle_test.go).
 package c03
 
@@ -34,6 +36,10 @@ type Src struct {
 	F string `json:"f,omitempty"` // K == "f": strconv 'g' form with the shortest exact digits; "NaN", "+Inf", "-Inf", "-0"
 	S string `json:"s,omitempty"` // K == "s"
 	B bool   `json:"b,omitempty"` // K == "b"
+	// G: the Go type the value has when it is handed to the library (forms_test.go: goKinds). "" = int64 /
+	// uint64 / float64 / string / bool. The mathematical value of the setting is the value the converted Go
+	// value holds (for a value the type cannot hold, the case means the converted value).
+	G string `json:"g,omitempty"`
 }
 
 func srcI(i int64) Src   { return Src{K: "i", I: i} }
@@ -52,6 +58,14 @@ func (s Src) float() (float64, error) {
 
 // goValue is the Go value that is put into the configuration.
 func (s Src) goValue() (interface{}, error) {
+	v, err := s.goValue0()
+	if err != nil || s.G == "" {
+		return v, err
+	}
+	return convertTo(v, s.G)
+}
+
+func (s Src) goValue0() (interface{}, error) {
 	switch s.K {
 	case "i":
 		return s.I, nil
@@ -69,6 +83,11 @@ func (s Src) goValue() (interface{}, error) {
 
 // eff is the value of the source taken as a literal setting.
 func (s Src) eff() eff {
+	if s.G != "" {
+		if v, err := s.goValue(); err == nil {
+			return effOfGo(v)
+		}
+	}
 	switch s.K {
 	case "i":
 		return eff{kind: "num", n: numInt(s.I)}
@@ -86,6 +105,11 @@ func (s Src) eff() eff {
 // text is the source written as text, for the deliveries that hand text to
 // the library (resolver result, splice pieces).
 func (s Src) text() string {
+	if s.G != "" {
+		if v, err := s.goValue(); err == nil {
+			return textOfGo(v)
+		}
+	}
 	switch s.K {
 	case "i":
 		return strconv.FormatInt(s.I, 10)
@@ -100,6 +124,14 @@ func (s Src) text() string {
 }
 
 func (s Src) String() string {
+	if s.G != "" {
+		p := s
+		p.G = ""
+		if v, err := s.goValue(); err == nil {
+			return fmt.Sprintf("%s(%s) [case: %v]", s.G, textOfGo(v), p)
+		}
+		return s.G + "(" + p.String() + ")"
+	}
 	switch s.K {
 	case "i":
 		return fmt.Sprintf("int64(%d)", s.I)
@@ -137,6 +169,12 @@ type Case struct {
 	Tgt   string `json:"tgt"`             // bool int int8 ... float64 string duration
 	Var   string `json:"var,omitempty"`   // Unpack only: "" | set | ptr | ptr-set | named | ptr-named
 	Read  string `json:"read"`            // unpack (struct field) | getter (Bool/Int/Uint/Float/String)
+	// the dimensions of forms_test.go
+	Wrap  string `json:"wrap,omitempty"`  // deliveries that hand the Go value over (lit, ref, envcfg, splice-val): how it is packaged (wraps)
+	L     bool   `json:"l,omitempty"`     // set: the setter is called with index 0; text deliveries: the text is written as `[text]`: the setting is a list of one element
+	Shape string `json:"shape,omitempty"` // unpack: "" struct field V T | slice V []T | array V [1]T | map V map[string]T (setting at v.k) | topmap Unpack into map[string]T
+	Merge string `json:"merge,omitempty"` // slice shape, pre-filled variants: "" | append | prepend | replace (options) | tag-append | tag-prepend | tag-replace (struct tag)
+	GIdx  bool   `json:"gidx,omitempty"`  // getter: called with index 0 instead of -1
 }
 
 func (c Case) String() string {
@@ -155,6 +193,21 @@ func (c Case) String() string {
 	}
 	if c.IC {
 		d += "+IgnoreCommas"
+	}
+	if c.Wrap != "" {
+		d += " packaged as " + c.Wrap
+	}
+	if c.L {
+		d += " as a list of one element (index 0)"
+	}
+	if c.Read == "unpack" && c.Shape != "" {
+		t += " element of shape " + c.Shape
+		if c.Merge != "" {
+			t += " merge " + c.Merge
+		}
+	}
+	if c.Read == "getter" && c.GIdx {
+		t += " with index 0"
 	}
 	return fmt.Sprintf("%v delivered as %s, read by %s into %s", c.Src, d, c.Read, t)
 }
@@ -276,27 +329,50 @@ func deliver0(c Case) (*ucfg.Config, []ucfg.Option, eff, error) {
 	if err != nil {
 		return nil, nil, eff{}, err
 	}
+	und := eff{kind: "undeliverable"}
+	if c.Wrap != "" && c.Deliv != "lit" && c.Deliv != "ref" && c.Deliv != "envcfg" && c.Deliv != "splice-val" {
+		return nil, nil, und, nil // only these deliveries hand the Go value to the library
+	}
+	if listWraps[c.Wrap] && c.Deliv == "splice-val" {
+		return nil, nil, und, nil // a list spliced into a text is not a primitive setting
+	}
+	// listText writes a text as a list of one element (c.L).
+	listText := func(text string, pc parse.Config) (string, eff) {
+		if !c.L {
+			return text, c.effText(text, pc)
+		}
+		if c.IC {
+			pc.IgnoreCommas = true
+		}
+		return "[" + text + "]", effOfListText(text, pc)
+	}
 	switch c.Deliv {
 	case "lit":
-		cfg, err := ucfg.NewFrom(map[string]interface{}{"v": val})
+		cfg, err := c.build(map[string]interface{}{}, "v", val)
 		return cfg, nil, c.Src.eff(), err
+	case "set":
+		// the typed setters; the value is the plain int64 / uint64 / float64 / string / bool
+		plain := c.Src
+		plain.G = ""
+		cfg, err := c.buildSet(plain)
+		return cfg, nil, plain.eff(), err
 	case "ref":
-		cfg, err := ucfg.NewFrom(map[string]interface{}{"v": "${x}", "x": val}, ucfg.VarExp)
+		cfg, err := c.build(map[string]interface{}{"v": "${x}"}, "x", val, ucfg.VarExp)
 		return cfg, nil, c.Src.eff(), err
 	case "resolver":
-		text := c.Src.text()
 		pc, ok := parseConfigs[c.pcName()]
 		if !ok {
 			return nil, nil, eff{}, fmt.Errorf("harness: unknown parse config %q", c.PC)
 		}
-		cfg, err := ucfg.NewFrom(map[string]interface{}{"v": "${x}"}, ucfg.VarExp)
+		text, e := listText(c.Src.text(), pc)
+		cfg, err := c.build(map[string]interface{}{"v": "${x}"}, "", nil, ucfg.VarExp)
 		res := ucfg.Resolve(func(name string) (string, parse.Config, error) {
 			if name == "x" {
 				return text, pc, nil
 			}
 			return "", parse.Config{}, fmt.Errorf("no such variable %q", name)
 		})
-		return cfg, []ucfg.Option{res}, c.effText(text, pc), err
+		return cfg, []ucfg.Option{res}, e, err
 	case "splice":
 		text := c.Src.text()
 		cut := c.Cut
@@ -306,53 +382,67 @@ func deliver0(c Case) (*ucfg.Config, []ucfg.Option, eff, error) {
 		if cut > len(text) {
 			cut = len(text)
 		}
-		cfg, err := ucfg.NewFrom(map[string]interface{}{"v": text[:cut] + "${x}${e}", "x": text[cut:], "e": ""}, ucfg.VarExp)
-		return cfg, nil, c.effText(text, parse.DefaultConfig), err
+		_, e := listText(text, parse.DefaultConfig)
+		m := map[string]interface{}{"v": text[:cut] + "${x}${e}", "x": text[cut:], "e": ""}
+		if c.L {
+			m["v"] = "[" + text[:cut] + "${x}]${e}"
+		}
+		cfg, err := c.build(m, "", nil, ucfg.VarExp)
+		return cfg, nil, e, err
 	case "splice-val":
-		cfg, err := ucfg.NewFrom(map[string]interface{}{"v": "${x}${e}", "x": val, "e": ""}, ucfg.VarExp)
+		cfg, err := c.build(map[string]interface{}{"v": "${x}${e}", "e": ""}, "x", val, ucfg.VarExp)
 		e := c.Src.eff()
 		if c.Src.K == "s" {
 			e = c.effText(c.Src.S, parse.DefaultConfig)
 		}
 		return cfg, nil, e, err
 	case "resolve-env":
-		text := c.Src.text()
-		if text == "" || strings.ContainsRune(text, 0) {
-			return nil, nil, eff{kind: "undeliverable"}, nil // an empty variable counts as unset; NUL cannot be stored
+		text, e := listText(c.Src.text(), parse.EnvConfig)
+		if c.Src.text() == "" || strings.ContainsRune(text, 0) {
+			return nil, nil, und, nil // an empty variable counts as unset; NUL cannot be stored
 		}
 		if err := os.Setenv(envVar, text); err != nil {
-			return nil, nil, eff{kind: "undeliverable"}, nil
+			return nil, nil, und, nil
 		}
-		cfg, err := ucfg.NewFrom(map[string]interface{}{"v": "${" + envVar + "}"}, ucfg.VarExp)
-		return cfg, []ucfg.Option{ucfg.ResolveEnv}, c.effText(text, parse.EnvConfig), err
+		cfg, err := c.build(map[string]interface{}{"v": "${" + envVar + "}"}, "", nil, ucfg.VarExp)
+		return cfg, []ucfg.Option{ucfg.ResolveEnv}, e, err
 	case "envcfg":
-		env, err := ucfg.NewFrom(map[string]interface{}{"x": val})
+		sub := c
+		sub.Shape = "" // the second configuration holds x at its top level
+		env, err := sub.build(map[string]interface{}{}, "x", val)
 		if err != nil {
 			return nil, nil, eff{}, err
 		}
-		cfg, err := ucfg.NewFrom(map[string]interface{}{"v": "${x}"}, ucfg.VarExp)
+		cfg, err := c.build(map[string]interface{}{"v": "${x}"}, "", nil, ucfg.VarExp)
 		return cfg, []ucfg.Option{ucfg.Env(env)}, c.Src.eff(), err
 	case "default":
 		text := c.Src.text()
 		if strings.ContainsAny(text, "${}:\\") {
-			return nil, nil, eff{kind: "undeliverable"}, nil // syntax of the expansion itself
+			return nil, nil, und, nil // syntax of the expansion itself
 		}
 		if strings.HasPrefix(text, "+") || strings.HasPrefix(text, "?") {
-			return nil, nil, eff{kind: "undeliverable"}, nil // `:+` and `:?` are other operators
+			if !c.L {
+				return nil, nil, und, nil // `:+` and `:?` are other operators
+			}
 		}
-		cfg, err := ucfg.NewFrom(map[string]interface{}{"v": "${nope:" + text + "}"}, ucfg.VarExp)
-		return cfg, nil, c.effText(text, parse.DefaultConfig), err
+		text, e := listText(text, parse.DefaultConfig)
+		cfg, err := c.build(map[string]interface{}{"v": "${nope:" + text + "}"}, "", nil, ucfg.VarExp)
+		return cfg, nil, e, err
 	case "alt":
 		text := c.Src.text()
 		if strings.ContainsAny(text, "${}:\\") {
-			return nil, nil, eff{kind: "undeliverable"}, nil
+			return nil, nil, und, nil
 		}
-		cfg, err := ucfg.NewFrom(map[string]interface{}{"v": "${one:+" + text + "}", "one": 1}, ucfg.VarExp)
-		return cfg, nil, c.effText(text, parse.DefaultConfig), err
+		text, e := listText(text, parse.DefaultConfig)
+		cfg, err := c.build(map[string]interface{}{"v": "${one:+" + text + "}", "one": 1}, "", nil, ucfg.VarExp)
+		return cfg, nil, e, err
 	case "pieces":
+		if c.L {
+			return nil, nil, und, nil
+		}
 		text := c.Src.text()
 		m, res, _ := buildPieces(text, c.Cuts, c.Kinds)
-		cfg, err := ucfg.NewFrom(m, ucfg.VarExp)
+		cfg, err := c.build(m, "", nil, ucfg.VarExp)
 		var opts []ucfg.Option
 		if len(res) > 0 {
 			opts = append(opts, ucfg.Resolve(func(name string) (string, parse.Config, error) {
@@ -413,18 +503,32 @@ func runCase(c Case, r *runlog.R) error {
 	if cfg == nil {
 		return fmt.Errorf("harness: %v: no configuration", c)
 	}
-	dyn := c.Deliv != "lit"
+	isList := listWraps[c.Wrap] || c.L
+	switch {
+	case c.Read == "unpack" && isList && !listShapes[c.Shape],
+		c.Read == "getter" && isList && !c.GIdx:
+		r.Discard() // a list of one element read as a single value: not a primitive setting
+		return nil
+	case c.Read == "unpack" && c.Shape == "topmap" && !topmapDeliveries[c.Deliv]:
+		r.Discard() // the helper settings of the delivery would be unpacked into the typed map as well
+		return nil
+	}
+	dyn := c.Deliv != "lit" && c.Deliv != "set"
 	v := oracle(e, t, dyn)
 
 	var got reflect.Value
 	var rerr, herr error
 	switch c.Read {
 	case "unpack":
-		got, rerr, herr = readUnpack(cfg, t, c.Var, opts)
+		got, rerr, herr = readUnpack(cfg, t, c, opts)
 	case "getter":
-		got, rerr, herr = readGetter(cfg, t, opts)
+		got, rerr, herr = readGetter(cfg, t, c.GIdx, opts)
 	default:
 		herr = fmt.Errorf("harness: unknown read path %q", c.Read)
+	}
+	if herr == errReplaced {
+		r.Class("interface target: the held typed value was replaced by a generic one (not asserted)")
+		return nil
 	}
 	if herr != nil {
 		return fmt.Errorf("%v (setting = %v): %v", c, e, herr)
@@ -459,7 +563,8 @@ func runCase(c Case, r *runlog.R) error {
 		}
 	}
 	r.ClassIf(c.IC, "IgnoreCommas option")
-	if c.Deliv != "lit" && c.Deliv != "ref" && c.Deliv != "envcfg" && e.kind == "num" {
+	formClasses(c, t, e, v, r)
+	if c.Deliv != "lit" && c.Deliv != "ref" && c.Deliv != "envcfg" && c.Deliv != "set" && e.kind == "num" {
 		txt := strings.TrimSpace(c.Src.text())
 		r.Class("number from text")
 		r.ClassIf(strings.HasPrefix(txt, "+"), "number from text: explicit +")
@@ -516,7 +621,7 @@ var subRandom = runlog.Register(&runlog.Sub[Case]{
 	Run:  runCase,
 })
 
-func TestRandom(t *testing.T) { subRandom.Check(t, 200000, 20000000) }
+func TestRandom(t *testing.T) { subRandom.Check(t, 160000, 20000000) }
 
 func TestReplay(t *testing.T) { runlog.ReplayMain(t) }
 
